@@ -259,20 +259,33 @@ Section HashModel.
   (* Remove(filter): GetBegin(); while (iter) { if (filter(ITEM)) iter = Remove(iter); else ++iter; }.
      Inside one bucket the iterator walks positions count-1 .. 0; Remove(iter) moves the last item into the
      hole and the returned iterator is pvInc'ed, i.e. continues at position pos-1. *)
-  Fixpoint brem_if (p : item -> bool) (n : nat) (l : list item) : list item :=
+  Fixpoint brem_if (p : item -> bool) (n : nat) (l : list item) (c : Z) : list item * Z :=
     match n with
-    | O => l
-    | S n' => if p (nth n' l (0, 0)) then brem_if p n' (bremove n' l) else brem_if p n' l
+    | O => (l, c)
+    | S n' => if p (nth n' l (0, 0)) then brem_if p n' (bremove n' l) (c + 1) else brem_if p n' l c
     end.
-  Definition bucket_rem_if (p : item -> bool) (b : bucket) : bucket :=
-    mkB (brem_if p (length (items b)) (items b)) (wasFull b) (bound b).
-  Definition table_rem_if (p : item -> bool) (t : table) : table := mkT (tlog t) (map (bucket_rem_if p) (tbs t)).
-  Definition tcount (t : table) : Z := Z.of_nat (length (ttraverse t)).
+  Fixpoint buckets_rem_if (p : item -> bool) (bs : list bucket) (c : Z) : list bucket * Z :=
+    match bs with
+    | [] => ([], c)
+    | b :: r =>
+      match brem_if p (length (items b)) (items b) c with
+      | (l', c1) => match buckets_rem_if p r c1 with (r', c2) => (mkB l' (wasFull b) (bound b) :: r', c2) end
+      end
+    end.
+  Fixpoint gens_rem_if (p : item -> bool) (gs : list table) (c : Z) : list table * Z :=
+    match gs with
+    | [] => ([], c)
+    | t :: r =>
+      match buckets_rem_if p (tbs t) c with
+      | (bs', c1) => match gens_rem_if p r c1 with (r', c2) => (mkT (tlog t) bs' :: r', c2) end
+      end
+    end.
+  (* c = number of Remove(iter) calls = initCount - GetCount() *)
   Definition hremove_if (s : hset) (p : item -> bool) : hset * Z :=
     if count s =? 0 then (s, 0) else
-    let gs := map (table_rem_if p) (gens s) in
-    let c := Z.of_nat (length (flat_map ttraverse gs)) in
-    (mkH gs c (capacity s), count s - c).
+    match gens_rem_if p (gens s) 0 with
+    | (gs, c) => (mkH gs (count s - c) (capacity s), c)
+    end.
 
   (* copy constructor: smallest table from logStart whose capacity suffices, pvAddNogrow of every item in traversal order *)
   Fixpoint copy_log (fuel : nat) (l n : Z) : option Z :=
